@@ -191,7 +191,17 @@ int main(int argc, char **argv)
       for (int i = 0; i < nd; i++) { nxp[i] = ni(); nxg[i] = per[i] ? nxp[i] : nxp[i] - 1; }
       for (int i = 0; i < nd; i++) w[i] = nf();
       grids G;
+      cvm::clear_error();
       make(G, nd, per, nxg, w, false, false, 0, 1);
+      if (cvm::get_error()) {
+        // the constructor refused the shape (input error): integrate() must not touch anything either
+        double err = -1.0; std::vector<double> before = G.pmf->data;
+        int it = G.pmf->integrate(10, 1e-6, err, false);
+        os << "REFUSED " << vs_errclass(cvm::get_error()) << " iter=" << it << " err=" << err
+           << " data_untouched=" << (before == G.pmf->data) << "\n";
+        cvm::clear_error();
+        continue;
+      }
       // the vectors carry PAD sentinel entries after the nt grid values: atimes must neither write them
       // nor depend on them (it indexes the arrays by hand)
       const size_t nt = G.pmf->nt, PAD = 4 * nt + 64;
